@@ -957,7 +957,10 @@ class Backend:
                 if comp.language in LANGS_CANT_UNITY:
                     sources += srcs
                     continue
-                for i in range((len(srcs) + unity_size - 1) // unity_size):
+                # Assembly and LLVM IR are compiled on their own in unity builds too
+                single = [s for s in srcs if compilers.is_assembly(s) or compilers.is_llvm_ir(s)]
+                sources += single
+                for i in range((len(srcs) - len(single) + unity_size - 1) // unity_size):
                     _src = self.get_unity_source_file(extobj.target,
                                                       comp.get_default_suffix(), i)
                     sources.append(_src)
